@@ -2438,6 +2438,35 @@ def run_task(task, tr):
     try:
         {'chain': chain_task, 'tune': tune_task, 'guard': guard_task, 'gmrf-step': c15_gmrf.step_task,
          'gmrf-precision': c15_gmrf.precision_task}[task['kind']](task, tr)
+    except Exception as e:
+        # An exception that comes out of torchtree's own loop (not an engine limitation) is decided on plain tensors:
+        # if the real MCMC.run raises there as well, the run aborts in the middle of a transition - a violation, not an
+        # inconclusive result.  Anything else is re-raised and ends inconclusive as before.
+        import traceback
+
+        from symtorch.expr import EngineError
+
+        frames = traceback.extract_tb(e.__traceback__)
+        in_torchtree = bool(frames) and '/torchtree/' in frames[-1].filename
+        engine = isinstance(e, EngineError) or type(e).__name__ == 'UnsupportedOp'
+        if engine or not in_torchtree or task['kind'] not in ('chain', 'guard'):
+            raise
+        where = f'{os.path.basename(frames[-1].filename)}:{frames[-1].lineno}'
+        try:
+            if task['kind'] == 'guard':
+                replay_guard(task['which'])
+                reproduced, detail = False, 'the concrete replay of the guard scenario does not raise'
+            else:
+                reproduced, detail = replay_chain(task['spec'], {}, focus='crash')
+        except Exception as e2:
+            reproduced, detail = True, f'real code raised {type(e2).__name__}: {e2}'
+        label = task.get('label') or f"guard {task.get('which')}"
+        if reproduced and type(e).__name__ in detail:
+            tr.violation(f'MCMC.run:raises:{type(e).__name__}',
+                         f'{label}: the real MCMC.run aborts with {type(e).__name__} at {where} ({str(e)[:160]}); on plain tensors: {detail}',
+                         {'kind': task['kind'], 'spec': task.get('spec'), 'which': task.get('which'), 'values': {}})
+        else:
+            raise
     finally:
         if os.environ.get('C15_TIMES'):  # debugging aid: per-task wall time, one line per task
             with open(os.environ['C15_TIMES'], 'a') as fh:
